@@ -184,6 +184,49 @@ class Batch:
                                    ops=[op_json(o) for o in ops], status=status))
         return pm, ops, status
 
+    def add_interleaved(self, specs, rng, full_dump_every=1):
+        """Several meshes alive in ONE process, their operations interleaved at random (state shared between Mesh
+        objects - class attributes, module-level memos, counters - would show); every mesh is compared with its own
+        run of the (pure) model.  specs: list of (glue, X, T, ops_fn).  Returns [(pm, ops, status)]."""
+        runs = []
+        for glue, X, T, ops_fn in specs:
+            pm = PyMesh.create(glue, X, T)
+            buf = [('mesh init %d %s %s' % (glue, enc(X), enc(T)), 'ok %d' % len(pm.mesh.leaf_elements), -1),
+                   ('mesh dump', dump_mesh(pm.mesh), -1)]
+            runs.append(dict(pm=pm, glue=glue, X=X, T=T, fn=ops_fn, ops=[], buf=buf, status='ok', k=0, done=False))
+        while any(not r['done'] for r in runs):
+            r = rng.choice([r for r in runs if not r['done']])
+            op = r['fn'](r['pm'], r['k'])
+            if op is None:
+                r['done'] = True
+                continue
+            r['ops'].append(op)
+            out = r['pm'].apply(op)
+            r['buf'].append((op_line(op), canon(out), r['k']))
+            if out.startswith('err'):
+                r['status'] = 'err'
+                r['done'] = True
+                continue
+            if full_dump_every and (r['k'] + 1) % full_dump_every == 0:
+                r['buf'].append(('mesh dump', dump_mesh(r['pm'].mesh), r['k']))
+            else:
+                r['buf'].append(('mesh leaves', dump_leaves(r['pm'].mesh), r['k']))
+            r['k'] += 1
+        out = []
+        for r in runs:
+            h = len(self.histories)
+            if r['status'] == 'ok':
+                r['buf'].append(('mesh dump', dump_mesh(r['pm'].mesh), r['k'] - 1))
+            for line, want, k in r['buf']:
+                self.lines.append(line)
+                self.expect.append(want)
+                self.where.append((h, k))
+            self.histories.append(dict(glue=r['glue'], X=[q2s(x) for x in r['X']], T=[q2s(t) for t in r['T']],
+                                       ops=[op_json(o) for o in r['ops']], status=r['status'],
+                                       interleaved_with=len(runs) - 1))
+            out.append((r['pm'], r['ops'], r['status']))
+        return out
+
     def run(self):
         """Returns None if model and code agree everywhere, else a dict describing the first disagreement."""
         if not self.lines:
